@@ -201,17 +201,28 @@ package tlog
 //@   pure
 //@   trusted "tile coordinate arithmetic (shifts); abstracted as an uninterpreted pure function"
 //@   props C10
-//@ # tileParent: only the level bookkeeping is specified (the k'th parent is k levels up or the zero Tile);
-//@ # the coordinate arithmetic (shifts) stays abstract
+//@ # tileParent: only the level bookkeeping is specified (the k'th parent is k levels up, in wrap-around int
+//@ # arithmetic, or the zero Tile); the coordinate arithmetic (shifts) stays abstract
 //@ func tileParent
 //@   pure
-//@   mathints "level and shift arithmetic on small tile coordinates; only the level bookkeeping is specified"
-//@   ensures (result.H == 0 && result.L == 0 && result.N == 0 && result.W == 0) || (result.L == t.L + k && result.H == t.H)
+//@   noovf
+//@   ensures (result.H == 0 && result.L == 0 && result.N == 0 && result.W == 0) || (result.L == asint64(t.L + k) && result.H == t.H)
 //@   props C10
+//@ # verified for coordinates whose level-0 position fits comfortably in 64 bits (wrap-around arithmetic, explicit bound)
 //@ func StoredHashIndex
 //@   pure
-//@   trusted "verified separately under C09 where claimed; here an uninterpreted pure function"
-//@   props C10
+//@   noovf
+//@   let N1 = n @before loop 1
+//@   ensures [C09] layout: INRANGE(level, n) ==> result == SHI(level, n)
+//@   loop 0:
+//@     invariant INRANGE(level, old(n)) ==> 0 <= l && l <= level && n >= 0 && n + 1 <= pow2(61 - l) && pow2(61 - l) <= pow2(61)
+//@     invariant INRANGE(level, old(n)) ==> n + 1 == MUL2(old(n) + 1, level - l)
+//@     decreases l
+//@   loop 1:
+//@     invariant INRANGE(level, old(n)) ==> n >= 0 && i >= 0 && i + S0(n) == S0(N1) && N1 + 1 == (old(n) + 1) * pow2(level) && 0 <= N1 && N1 + 1 <= pow2(61)
+//@     decreases n
+//@   uses S0_upper S0_nonneg pow2_mono MUL2_eq
+//@   props C10 C09
 //@ # NT(lo, hi): number of complete subtrees into which [lo, hi) is decomposed (uninterpreted; only its use
 //@ # by subTreeIndex and subTreeHash in lockstep matters here)
 //@ spec func NT(lo int, hi int) int
@@ -321,7 +332,7 @@ package tlog
 //@   loop 7:
 //@     invariant 0 - 1 <= @idx && @idx < len(indexes) && len(hashes) == len(indexes)
 //@     decreases len(indexes) - @idx
-//@   props C10
+//@   props C10 C01 C13
 
 //@ # ---------- proof producers: no crash, and the proof has the RFC length (content: not decided) ----------
 //@ # an authenticating reader returns only hashes the tree head it was created for commits to (for the in-repo
@@ -437,3 +448,103 @@ package tlog
 //@   trusted "text codec; here: a relation between the message and its parts"
 //@   ensures err == nil ==> PARSEDREC(string(msg), id, string(text), string(rest))
 //@   props C01 C13
+
+
+//@ # ====================== stored-hash layout (C09) ======================
+//@ # S0(m) = m + m/2 + m/4 + ... : the number of hashes stored before the leaf hash of record m
+//@ spec func S0(m int) int decreases m = if m <= 0 then 0 else m + S0(m / 2)
+//@ # TO(x): number of trailing one bits of x
+//@ spec func TO(x int) int decreases x = if x > 0 && x % 2 == 1 then 1 + TO(x / 2) else 0
+//@ # the documented layout: level L's n'th hash is written right after the leaf hash of the last record below it,
+//@ # `level` places further on
+//@ spec func SHI(level int, n int) int = S0((n + 1) * pow2(level) - 1) + level
+//@ # coordinates whose leaf-level position is below 2^61 (beyond any log that can exist; keeps 64-bit arithmetic exact)
+//@ spec func INRANGE(level int, n int) bool = 0 <= level && level <= 61 && n >= 0 && n + 1 <= pow2(61 - level)
+//@ # a doubled k times (the first loop of StoredHashIndex), and its closed form
+//@ spec func MUL2(a int, k int) int decreases k = if k <= 0 then a else 2 * MUL2(a, k - 1)
+//@ lemma MUL2_eq(a int, k int)
+//@   requires k >= 0
+//@   ensures MUL2(a, k) == a * pow2(k)
+//@   induction k
+//@   trigger MUL2(a, k)
+//@   props C09
+//@ lemma pow2_mono(a int, b int)
+//@   requires 0 <= a && a <= b
+//@   ensures pow2(a) <= pow2(b)
+//@   induction b - a
+//@   trigger pow2(a), pow2(b)
+//@   props C09
+
+//@ lemma S0_nonneg(m int)
+//@   ensures S0(m) >= 0 && (m >= 0 ==> S0(m) >= m)
+//@   induction m
+//@   trigger S0(m)
+//@   props C09
+//@ lemma TZ_nonneg(x int)
+//@   ensures TZ(x) >= 0
+//@   induction x
+//@   trigger TZ(x)
+//@   props C09
+//@ lemma TO_TZ(x int)
+//@   requires x >= 0
+//@   ensures TO(x) == TZ(x + 1)
+//@   induction x
+//@   trigger TO(x)
+//@   props C09
+//@ # each new record m+1 adds 1 + trailingZeros(m+1) hashes
+//@ lemma S0_step(m int)
+//@   requires m >= 0
+//@   ensures S0(m + 1) == S0(m) + 1 + TZ(m + 1)
+//@   induction m
+//@   trigger S0(m + 1)
+//@   trigger S0(m), TZ(m + 1)
+//@   props C09
+
+//@ # the store is dense: after n records it holds exactly the hashes before record n's leaf hash
+//@ func StoredHashCount
+//@   requires 0 <= n && n < pow2(61)
+//@   ensures [C09] count: result == S0(n) && result == StoredHashIndex(0, n)
+//@   loop 0:
+//@     invariant n >= 1 && i >= 0 && i <= n - 1 && numHash + TO(i) == S0(n - 1) + 1 + TO(n - 1) && TO(i) >= 0
+//@     decreases i
+//@   uses S0_step TO_TZ TZ_nonneg S0_upper S0_nonneg
+//@   props C09
+
+//@ lemma S0_upper(m int)
+//@   requires m >= 0
+//@   ensures S0(m) <= 2 * m
+//@   induction m
+//@   trigger S0(m)
+//@   props C09
+//@ # x has at least TZ(x) factors of two: QK(x, k) is the cofactor of 2^k
+//@ spec func QK(x int, k int) int decreases k = if k <= 0 then x else QK(x / 2, k - 1)
+//@ lemma TZ_factor(x int, k int)
+//@   requires x > 0 && 0 <= k && k <= TZ(x)
+//@   ensures QK(x, k) >= 1 && x == QK(x, k) * pow2(k)
+//@   induction k
+//@   trigger QK(x, k)
+//@   props C09
+//@ lemma shr_exact(m int, q int, k int)
+//@   requires q >= 1 && k >= 0 && m + 1 == q * pow2(k)
+//@   ensures m >> k == q - 1
+//@   trigger m >> k, q * pow2(k)
+//@   props C09
+//@ # the coordinates that SplitStoredHashIndex returns for the k'th hash committed with record m
+//@ lemma split_coords(m int, k int)
+//@   requires m >= 0 && 0 <= k && k <= TZ(m + 1)
+//@   ensures (m >> k) >= 0 && ((m >> k) + 1) * pow2(k) == m + 1
+//@   uses TZ_factor shr_exact
+//@   hint QK(m + 1, k) >= 1
+//@   trigger m >> k, TZ(m + 1)
+//@   props C09
+
+//@ # SplitStoredHashIndex is a right inverse of StoredHashIndex: every position is the position of exactly the
+//@ # coordinates it is split into
+//@ func SplitStoredHashIndex
+//@   requires 0 <= index && index <= pow2(61)
+//@   ensures [C09] right_inverse: level >= 0 && n >= 0 && SHI(level, n) == index
+//@   loop 0:
+//@     invariant n >= 0 && n <= index && indexN == S0(n) && indexN <= index
+//@     decreases index - indexN
+//@   uses S0_step S0_upper TZ_nonneg split_coords S0_nonneg
+//@   props C09
